@@ -225,13 +225,14 @@ Qed.
 
 (* the tokenizer run the parser is given (Tok.run): the tokens, then clean end-of-input results *)
 Corollary run_inversion l tail : Forall (fun p => hws (fst p) /\ lex_ok (snd p)) l -> sep_ok l -> hws tail ->
-  exists m, run (render l tail) false = map (fun p => NT (tok_of (snd p)) []) l ++ repeat (NF []) m.
+  exists m, length l + m = length (render l tail) + 3 /\
+            run (render l tail) false = map (fun p => NT (tok_of (snd p)) []) l ++ repeat (NF []) m.
 Proof.
   intros H Hs Ht. unfold run.
   assert (Hlen : length l <= length (render l tail)).
   { clear Hs. induction H as [|[ws x] r _ _ IH]; cbn [length render]; [lia|]. rewrite !app_length. destruct x; cbn [text_of length]; lia. }
   remember (length (render l tail) + 3 - length l) as m eqn:Em. exists m.
-  assert (En : length (render l tail) + 3 = length l + m) by lia. rewrite En.
+  assert (En : length (render l tail) + 3 = length l + m) by lia. split; [lia|]. rewrite En.
   apply (lex_inversion l tail _ None None H Hs Ht).
 Qed.
 
@@ -243,7 +244,7 @@ Corollary layout_independent l l' tail tail' :
   Forall (fun p => hws (fst p) /\ lex_ok (snd p)) l' -> sep_ok l' -> hws tail' ->
   exists toks m m', run (render l tail) false = toks ++ repeat (NF []) m /\ run (render l' tail') false = toks ++ repeat (NF []) m'.
 Proof.
-  intros E H Hs Ht H' Hs' Ht'. destruct (run_inversion l tail H Hs Ht) as [m Em]. destruct (run_inversion l' tail' H' Hs' Ht') as [m' Em'].
+  intros E H Hs Ht H' Hs' Ht'. destruct (run_inversion l tail H Hs Ht) as (m & _ & Em). destruct (run_inversion l' tail' H' Hs' Ht') as (m' & _ & Em').
   exists (map (fun p => NT (tok_of (snd p)) []) l), m, m'. split; [exact Em|]. rewrite Em'. f_equal.
   transitivity (map (fun x => NT (tok_of x) []) (map snd l')); [symmetry; apply map_map|].
   rewrite <- E. apply map_map.
